@@ -214,7 +214,7 @@ def path_table(fn, atoms, classify, max_paths=4000):
     `?` Break edges are reported with result 'err?'. Returns set of rows."""
     rows = set()
     for p in A.decision_table(fn, max_paths=max_paths):
-        if p["diverges"] or not A.feasible(p):
+        if p["diverges"] or not A.feasible(p) or not _const_feasible(p):
             continue
         vals = {n: None for n, _ in atoms}
         brk = False
@@ -370,3 +370,199 @@ def result_edges(fn, cs, through=("Result::map_err", "Result::map", "Option::ok_
 def ok_edge2(fn, cs):
     ts = result_edges(fn, cs)
     return ts[1] if ts else None
+
+
+# ----------------------------------------------------------------------------- semantic (shape-independent) helpers
+
+
+class S:
+    """String-valued stand-in for an E (operand of a fact imported from a callee after parameter substitution)."""
+    k = "str"
+
+    def __init__(self, s):
+        self._s = s
+        self.a = ()
+
+    def __str__(self):
+        return self._s
+
+    __repr__ = __str__
+
+
+def _subst(s, mapping):
+    for name, val in mapping:
+        s = re.sub(r"(?<![\.\w\^])%s\b" % re.escape(name), lambda m: val, s)
+    return s
+
+
+def ok_facts_of(fn):
+    """Comparison/boolean facts that hold at EVERY Ok exit of fn (intersection), as (op, a, b) with E operands."""
+    oks = [bb for bb, k, e in fn.exits() if k == "ok"]
+    if not oks:
+        return []
+    sets = []
+    for bb in oks:
+        sets.append({(op, str(a), str(b) if b is not None else None): (op, a, b) for op, a, b in A.cmp_facts(fn, bb)})
+    keys = set(sets[0])
+    for s_ in sets[1:]:
+        keys &= set(s_)
+    return [sets[0][k] for k in keys]
+
+
+def facts_at(fn, bb, prog=None, depth=1):
+    """A.cmp_facts(fn, bb) plus — one level through the call graph — the facts guaranteed by every local callee whose
+    result is `?`-propagated and whose Ok edge dominates bb (facts holding at all Ok exits of the callee, with the
+    callee's parameters replaced by the call's argument expressions). A precondition check extracted into a private
+    helper therefore yields the same facts as the inlined checks."""
+    out = list(A.cmp_facts(fn, bb))
+    prog = prog or fn.prog
+    if depth <= 0 or prog is None:
+        return out
+    for cs in fn.calls:
+        if cs.short in TRIV:
+            continue
+        tgts = prog.callees(cs)
+        if len(tgts) != 1 or tgts[0].crate != fn.crate or tgts[0].id == fn.id:
+            continue
+        g = tgts[0]
+        if g.arg_count != len(cs.args):
+            continue
+        ts = result_edges(fn, cs)
+        if not ts or ts[1] is None or not fn.dominates(ts[1], bb):
+            continue
+        inner = ok_facts_of(g)
+        if not inner:
+            continue
+        mapping = [(g.locals[i + 1][1], str(cs.arg_expr(i))) for i in range(g.arg_count) if g.locals[i + 1][1]]
+        # substitute longest names first
+        mapping.sort(key=lambda m: -len(m[0]))
+        # use placeholders so that substituted text is not substituted again
+        ph = [(n, "\x00%d\x00" % i) for i, (n, v) in enumerate(mapping)]
+        back = [("\x00%d\x00" % i, v) for i, (n, v) in enumerate(mapping)]
+
+        def sub(x):
+            if x is None:
+                return None
+            s = str(x)
+            s2 = _subst(s, ph)
+            if s2 == s:
+                return x
+            for p_, v in back:
+                s2 = s2.replace(p_, v)
+            return S(s2)
+
+        for op, a, b in inner:
+            out.append((op, sub(a), sub(b)))
+    return out
+
+
+def _const_feasible(path):
+    """A branch on a value that is a boolean constant on this path must take the matching edge."""
+    for cond, lab, _ty in path["conds"]:
+        c = cond
+        neg = False
+        while c.k == "un" and c.a[0] == "Not":
+            c = c.a[1]
+            neg = not neg
+        if c.k == "const" and str(c) in ("true", "false"):
+            val = (str(c) == "true") != neg
+            t = _lab_truth(lab)
+            if t in (True, False) and t != val:
+                return False
+    return True
+
+
+def cmp_switches(fn, op, a_re, b_re):
+    """Branches whose condition decides the relation `a op b` (modulo operand swap and negation).
+    -> list of dict(bb, holds=<target where `a op b` holds>, fails=<target where it does not>, cond)"""
+    out = []
+    for i, b in enumerate(fn.blocks):
+        t = b["t"]
+        if t[0] != "switch" or t[4] != "bool":
+            continue
+        c = A.as_cmp(fn.expr(t[1]))
+        if not c:
+            continue
+        f_t = [tgt for v, tgt in t[2] if int(v) == 0]
+        if not f_t:
+            continue
+        true_t, false_t = t[3], f_t[0]
+        o, x, y = c
+        sx_, sy_ = str(x), str(y)
+        for (oo, xx, yy) in ((o, sx_, sy_), (A.FLIP[o], sy_, sx_)):
+            if re.search(a_re, xx) and re.search(b_re, yy):
+                if oo == op:
+                    out.append({"bb": i, "holds": true_t, "fails": false_t, "cond": fn.expr(t[1])})
+                    break
+                if A.NEG[oo] == op:
+                    out.append({"bb": i, "holds": false_t, "fails": true_t, "cond": fn.expr(t[1])})
+                    break
+    return out
+
+
+def _field_stores_on_path(fn, field_path, blocks):
+    """(index in path, operand) of the stores into `field_path` executed on the block path, in order."""
+    out = []
+    for i, bb in enumerate(blocks):
+        for si, s in enumerate(fn.blocks[bb]["s"]):
+            if s[0] == "=" and len(s[1]) > 1 and A._place_path(fn, s[1]) == field_path and s[2][0] == "use":
+                out.append((i, s[2][1]))
+    return out
+
+
+def extremum_update(fn, field_path, arg, kind):
+    """Does fn leave `field := min/max(old field, arg)` on every acyclic path? Accepts the std call
+    (Ord::min / Ord::max / cmp::min / cmp::max, either argument order) as well as the equivalent
+    compare-and-assign / compare-and-select shapes. kind in ('min', 'max'). -> (ok, description)"""
+    call_re = r"^(Ord|cmp)::%s\((%s, %s|%s, %s)\)$" % (kind, re.escape(field_path), re.escape(arg), re.escape(arg), re.escape(field_path))
+    take = "<" if kind == "min" else ">"          # arg replaces the field when `arg take field`
+    shapes = set()
+    n = 0
+    for p in A.decision_table(fn):
+        if p["diverges"] or not A.feasible(p) or not _const_feasible(p):
+            continue
+        n += 1
+        blocks = p["blocks"]
+        stores = _field_stores_on_path(fn, field_path, blocks)
+        # relations between arg and the OLD field value established on the path before the (last) store
+        limit = stores[-1][0] if stores else len(blocks)
+        rel = set()
+        # the k-th recorded condition belongs to the k-th (non drop-flag) switch block of the path
+        sw_pos = [i for i, b in enumerate(blocks) if fn.blocks[b]["t"][0] == "switch" and not A._is_drop_flag(fn, fn.blocks[b]["t"][1])]
+        for ci, (cond, lab, _ty) in enumerate(p["conds"]):
+            if ci < len(sw_pos) and sw_pos[ci] >= limit and stores:
+                continue            # tested after the store: compares with the new value, says nothing about the old one
+            c = A.as_cmp(cond)
+            if not c:
+                continue
+            t = _lab_truth(lab)
+            if t not in (True, False):
+                continue
+            o, x, y = c
+            if not t:
+                o = A.NEG[o]
+            sx_, sy_ = str(x), str(y)
+            if sx_ == arg and sy_ == field_path:
+                rel.add(o)
+            elif sx_ == field_path and sy_ == arg:
+                rel.add(A.FLIP[o])
+        if not stores:
+            val = field_path
+        else:
+            idx, op_ = stores[-1]
+            val = str(fn.expr_on_path(op_, blocks, idx))
+        if re.match(call_re, val):
+            shapes.add("std-call")
+            continue
+        keep_ok = {">=", ">"} if kind == "min" else {"<=", "<"}     # arg vs field relations under which keeping is right
+        take_ok = {"<", "<="} if kind == "min" else {">", ">="}
+        if val == arg and rel & take_ok:
+            shapes.add("assign-if-%s" % take)
+            continue
+        if val == field_path and rel & keep_ok:
+            shapes.add("keep-otherwise")
+            continue
+        if val == arg and not rel and False:
+            pass
+        return (False, "on a path the field ends as `%s` under relations %s of (%s ? %s)" % (sx(val, 80), sorted(rel), arg, field_path))
+    return (n > 0, "%d path(s): %s" % (n, sorted(shapes)))
